@@ -39,7 +39,8 @@ def db_state(env, nm):
         files = sorted([f.pk, nm('f:' + f.name), f.stream_pk, f.blob_pk] for f in m.MediaFile.all())
         blobs = sorted([b.pk, nm('f:' + os.path.splitext(b.filename)[0])] for b in m.Blob.all())
         keys = sorted([k.pk, nm('k:' + k.hkid)] for k in m.Key.all())
-        links = sorted([f.pk, k.pk] for f in m.MediaFile.all() for k in f.encryption_keys)
+        from dashlive.server.models.mediafile_keys import mediafile_keys
+        links = sorted([r[0], r[1]] for r in m.db.session.execute(m.db.select(mediafile_keys.c.media_pk, mediafile_keys.c.key_pk)))
         mpss = sorted([x.pk, nm('m:' + x.name)] for x in m.MultiPeriodStream.all())
         periods = sorted([p.pk, p.parent_pk, nm('p:' + p.pid), p.stream_pk] for p in m.db.session.execute(m.db.select(m.Period)).scalars())
         asets = sorted([a.pk, a.period_pk] for a in m.db.session.execute(m.db.select(m.AdaptationSet)).scalars())
@@ -184,6 +185,25 @@ class Driver:
         self.log.append('POST /stream/%d timing_ref=%s -> %d' % (spk, name, r.status_code))
         return r
 
+    def rename(self, spk, new_dir, title, timing_ref):
+        before = self.state()
+        r = self.c.post('/stream/%d' % spk, headers=self.actor.headers(ajax=False),
+                        data={'csrf_token': self.tok('streams', '/stream/%d' % spk) or '', 'title': title, 'directory': new_dir,
+                              'timing_ref': timing_ref or '', 'marlin_la_url': '', 'playready_la_url': ''})
+        after = self.state()
+        self.log.append('POST /stream/%d directory=%s -> %d' % (spk, new_dir, r.status_code))
+        if r.status_code < 400:
+            self.ops.append([12, spk, self.nm('d:' + new_dir), 0, 0])
+        if after[0] == before[0]:
+            self.rejected += 1
+        return r
+
+    def edit_track(self, spk, mfid, track_id):
+        r = self.c.post('/stream/%d/%d/edit' % (spk, mfid), headers=self.actor.headers(ajax=False),
+                        data={'track_id': str(track_id), 'lang': 'und', 'csrf_token': self.tok('files', '/stream/%d' % spk) or ''})
+        self.log.append('POST /stream/%d/%d/edit track_id=%d -> %d' % (spk, mfid, track_id, r.status_code))
+        return r
+
     def delete_media(self, spk, mfid):
         before = self.state()
         r = self.c.delete('/stream/%d/%d?csrf_token=%s' % (spk, mfid, self.tok('files', '/stream/%d' % spk) or ''), headers=self.actor.headers())
@@ -293,12 +313,14 @@ def history(ctx, env, hidx, length):
     if rng.random() < 0.8:
         # a playable stream early on, so that periods can be created: stream, video file, index, timing reference
         script = ['add_stream', 'upload_v', 'index', 'timing']
+        if rng.random() < 0.6:
+            script += ['upload_e', 'index_last']
     for step in range(length):
         st = d.state()
         streams, files, blobs, keys, links, mpss, periods, asets = st
         with env.app.app_context():
             playable = [x.pk for x in env.models.Stream.all() if x.timing_reference is not None]
-        choice = script.pop(0) if script else rng.choice(['add_mps', 'add_period', 'delete_stream', 'add_stream', 'add_stream', 'upload', 'upload', 'upload', 'index', 'timing', 'delete_stream', 'delete_media',
+        choice = script.pop(0) if script else rng.choice(['add_mps', 'add_period', 'delete_stream', 'rename', 'rename', 'delete_key', 'add_stream', 'add_stream', 'upload', 'upload', 'upload', 'index', 'timing', 'delete_stream', 'delete_media',
                              'add_key', 'delete_key', 'add_mps', 'add_period', 'delete_mps'])
         n_before = len(d.ops)
         try:
@@ -310,6 +332,10 @@ def history(ctx, env, hidx, length):
                 r = d.delete_stream(spk)
             elif choice == 'upload_v' and streams:
                 r = d.upload(streams[-1][0], 'clip_v', 'v')
+            elif choice == 'upload_e' and streams:
+                r = d.upload(streams[-1][0], 'clip_e', 'e')
+            elif choice == 'index_last' and files:
+                r = d.index(max(f[0] for f in files))
             elif choice == 'upload' and streams:
                 spk = rng.choice(streams)[0]
                 name = rng.choice(fnames)
@@ -323,6 +349,13 @@ def history(ctx, env, hidx, length):
                     s = mf.stream
                     args = (s.pk, s.directory, s.title, mf.name)
                 r = d.set_timing_ref(*args)
+            elif choice == 'rename' and streams:
+                x = rng.choice(streams)
+                with env.app.app_context():
+                    st_ = env.models.Stream.get(pk=x[0])
+                    tr = st_.timing_reference
+                    args = (st_.pk, rng.choice(dirs + ['delta']), st_.title, tr.media_name if tr is not None else '')
+                r = d.rename(*args)
             elif choice == 'delete_media':
                 if files and rng.random() < 0.85:
                     f = rng.choice(files)
@@ -374,6 +407,14 @@ def serve_check(ctx, env, d, hidx):
     with env.app.app_context():
         streams = [(s.pk, s.directory) for s in env.models.Stream.all()]
         mpss = [x.name for x in env.models.MultiPeriodStream.all()]
+        # streams with encrypted, indexed media whose key row has been deleted (known finding key-deleted-in-use)
+        have = {k.hkid.lower() for k in env.models.Key.all()}
+        keyless = set()
+        for f in env.models.MediaFile.all():
+            rep = f.representation
+            if rep is not None and rep.encrypted and any(k.hex.lower() not in have for k in (rep.kids or [])):
+                keyless.add(f.stream.directory)
+        keyless_mps = {x.name for x in env.models.MultiPeriodStream.all() if any(p.stream is not None and p.stream.directory in keyless for p in x.periods)}
         files = [(f.name, f.stream.directory, f.representation is not None, f.content_type) for f in env.models.MediaFile.all()]
     with Clock(utc(2024, 3, 5, 12, 0, 7)):
         for _, directory in streams:
@@ -381,21 +422,53 @@ def serve_check(ctx, env, d, hidx):
                 r = c.get('/dash/%s/%s/hand_made.mpd' % (mode, directory))
                 ctx.count('http:serve-after-history')
                 if r.status_code >= 500:
-                    ctx.violation('history %d: /dash/%s/%s/hand_made.mpd answers %d' % (hidx, mode, directory, r.status_code), {'history': list(d.log)})
+                    ctx.violation('history %s: /dash/%s/%s/hand_made.mpd answers %d' % (hidx, mode, directory, r.status_code), {'history': list(d.log)},
+                                  key='key-deleted-in-use' if directory in keyless else None)
         for name in mpss:
             for mode in ('vod', 'live'):
                 r = c.get('/mps/%s/%s/hand_made.mpd' % (mode, name))
                 ctx.count('http:serve-after-history')
                 if r.status_code >= 500:
-                    ctx.violation('history %d: /mps/%s/%s/hand_made.mpd answers %d' % (hidx, mode, name, r.status_code), {'history': list(d.log)})
+                    ctx.violation('history %s: /mps/%s/%s/hand_made.mpd answers %d' % (hidx, mode, name, r.status_code), {'history': list(d.log)},
+                                  key='key-deleted-in-use' if name in keyless_mps else None)
         for name, directory, indexed, ctype in files:
             if name in d.uploaded and indexed:
                 r = c.get('/dash/odvod/%s/%s.mp4' % (directory, name))
                 ctx.count('http:read-back')
                 if r.status_code == 200 and r.data != d.uploaded[name][1]:
-                    ctx.violation('history %d: %s/%s.mp4 is served back with different bytes' % (hidx, directory, name), {'history': list(d.log)})
+                    ctx.violation('history %s: %s/%s.mp4 is served back with different bytes' % (hidx, directory, name), {'history': list(d.log)})
                 elif r.status_code >= 500:
-                    ctx.violation('history %d: /dash/odvod/%s/%s.mp4 answers %d' % (hidx, directory, name, r.status_code), {'history': list(d.log)})
+                    ctx.violation('history %s: /dash/odvod/%s/%s.mp4 answers %d' % (hidx, directory, name, r.status_code), {'history': list(d.log)})
+
+
+def scenarios(ctx, workdir):
+    """scripted multi-step histories that random generation reaches rarely (oracle only: consistency, no 5xx, read-back)"""
+    import logging
+    from ..appenv import AppEnv
+    # S1: a file of another stream uses the track id of the video of the stream a period plays
+    env = AppEnv(os.path.join(workdir, 'scenario1'), streams=(), copy_media=True)
+    logging.disable(logging.CRITICAL)
+    d = Driver(ctx, env)
+    r = d.add_stream('radio', 'Radio')
+    radio = (r.get_json(silent=True) or {}).get('id')
+    r = d.upload(radio, 'clip_a', 'a')
+    mfa = (r.get_json(silent=True) or {}).get('pk')
+    d.index(mfa)
+    d.edit_track(radio, mfa, 1)
+    d.index(mfa)
+    d.set_timing_ref(radio, 'radio', 'Radio', 'clip_a')
+    r = d.add_stream('alpha', 'Alpha')
+    alpha = (r.get_json(silent=True) or {}).get('id')
+    for name, kind in (('clip_v', 'v'), ('other_a', 'a')):
+        r = d.upload(alpha, name, kind)
+        d.index((r.get_json(silent=True) or {}).get('pk'))
+    d.set_timing_ref(alpha, 'alpha', 'Alpha', 'clip_v')
+    d.add_mps('mp_one', [('p1', alpha, [1, 2])])
+    ctx.count('http:scenario')
+    oracle(ctx, d.state(), 'scenario 1 (%s)' % d.log[-1], {'history': list(d.log)})
+    serve_check(ctx, env, d, 'scenario-1')
+    ctx.nontriv(('scenario', 1))
+    env.close()
 
 
 def run(ctx):
@@ -421,6 +494,7 @@ def run(ctx):
         reqs.append([1, d.ops])
         meta.append((h, list(d.log), trace, marks))
         env.close()
+    scenarios(ctx, ctx.workdir)
     res = common.run_model_parallel(17, reqs)
     ok = True
     for (h, log, trace, marks), m in zip(meta, res):
